@@ -313,6 +313,42 @@ func (h *l2) apply(op simrt.Op) {
 			}
 		}
 		h.lastWrite = fmt.Sprintf("iroaring(clear=%v,fmt=%d,%d bits)", clear, I[1], len(pairs))
+	case "fill": // I=[row, container, path, hole offsets...]: every column of one 65536-column container but the holes
+		if h.kind != l2Set {
+			return
+		}
+		row, base := uint64(I[0]), uint64(I[1]%16)*65536
+		hole := map[uint64]bool{}
+		for _, o := range I[3:] {
+			hole[uint64(o)%65536] = true
+		}
+		var rows, cols, pos []uint64
+		for o := uint64(0); o < 65536; o++ {
+			if hole[o] {
+				continue
+			}
+			c := h.col(int64(base + o))
+			rows, cols = append(rows, row), append(cols, c)
+			pos = append(pos, row*ShardWidth+c%ShardWidth)
+		}
+		var err error
+		switch I[2] {
+		case 0:
+			err = f.bulkImport(append([]uint64(nil), rows...), append([]uint64(nil), cols...), &ImportOptions{})
+		case 1:
+			err = f.importRoaring(context.Background(), simrt.EncodePilosa(pos, 0, nil), false)
+		default:
+			err = f.importRoaring(context.Background(), simrt.EncodeOfficial(pos, I[2] == 3, nil), false)
+		}
+		if err != nil {
+			h.c.Fail("write-error", "fill: %v", err)
+			return
+		}
+		for i := range rows {
+			h.modelSet(rows[i], cols[i])
+		}
+		h.c.Probe("container-filled")
+		h.lastWrite = fmt.Sprintf("fill(row %d, container %d, path %d, %d holes)", row, I[1]%16, I[2], len(hole))
 	case "setval":
 		col, v := h.col(I[0]), I[1]
 		got, err := f.setValue(col, h.depth, v)
